@@ -56,7 +56,9 @@ THEOREMS = [P + n for n in (
     # round 4: reuse sessions
     'input_write_leaves', 'call_leaves_content_unchanged', 'session_calls_independent',
     'session_final_content', 'sessionSpec_length', 'sessionSpec_append_call', 'session_call_at',
-    'session_rerun_identical', 'inplace_write_changes_later_call')]
+    'session_rerun_identical', 'inplace_write_changes_later_call',
+    # round 5: the noise ceiling of the public crossval with / without ceil_set
+    'crossval_ceiling_no_ceil_set_spec', 'crossval_ceiling_ceil_set_spec')]
 RULE = ('one PRNG; stacks of 2-8 RDMs x 4-12 conditions (dissimilarities k/8, k integer) with int or '
         'str grouping descriptors on either axis or the default index; 1-3 models of the classes '
         'fixed / weighted / select / interpolate, theta given or fitted (default fitters, fit_regress, '
@@ -71,7 +73,12 @@ RULE = ('one PRNG; stacks of 2-8 RDMs x 4-12 conditions (dissimilarities k/8, k 
         'user edits of a data row, of the parameter arrays, of a grouping descriptor between calls); every call '
         'judged against the content of its moment, inputs bit-identical after every call, Results unchanged '
         'at the end; mutable inputs are never shared between cases (every case builds its objects from its '
-        'own JSON numbers).')
+        'own JSON numbers).  Round 5, the ceiling of the public crossval: direct calls with calc_noise_ceil=True '
+        '(bool / int / numpy bool), ceil_set handed over or left out (the default None), on the folds of every '
+        'set generator (sets_k_fold with k_rdm and / or k_pattern > 1, sets_k_fold_rdm, sets_k_fold_pattern, '
+        'sets_leave_one_out_rdm / _pattern) and on hand-built splits (RDM positions not aligned with groups, test '
+        'RDMs overlapping the training RDMs, single folds, unsorted test groups, pattern indices as list / tuple / '
+        'array); every class on a fixed schedule; also as a later call of a reuse session.')
 BRANCHES = ['routine:fixed', 'routine:bootstrap', 'routine:crossval', 'routine:bcv', 'routine:dual',
             'routine:random', 'routine:testset', 'bt:both', 'bt:rdm', 'bt:pattern',
             'boot_nc:true', 'boot_nc:false', 'nan_sample', 'ok_sample', 'grouped:rdm',
@@ -84,7 +91,19 @@ BRANCHES = ['routine:fixed', 'routine:bootstrap', 'routine:crossval', 'routine:b
             'desc:float', 'desc:float-collide-int', 'desc:bool', 'desc:negative', 'desc:array', 'desc:int64', 'desc:tuple',
             'models:4+', 'models:mixed3', 'N:large', 'N:2', 'k:default', 'n:default',
             'cv:nonrandom', 'sets:rejected', 'cov:undefined', 'fitcheck:select',
-            'fitcheck:optimize'] + S.SESSION_BRANCHES      # round 4: reuse sessions
+            'fitcheck:optimize'] + S.SESSION_BRANCHES + [   # round 4: reuse sessions
+            # round 5: direct crossval calls, ceiling computed and stored, by path x kind of folds
+            'crossval:no_ceil_set:rdm_split', 'crossval:no_ceil_set:both_split',
+            'crossval:no_ceil_set:pattern_only', 'crossval:ceil_set:rdm_split',
+            'crossval:ceil_set:both_split', 'crossval:ceil_set:pattern_only',
+            'crossval:no_ceil_set:gen:k_fold', 'crossval:no_ceil_set:gen:k_fold_rdm',
+            'crossval:no_ceil_set:gen:loo_rdm', 'crossval:no_ceil_set:gen:loo_pattern',
+            'crossval:no_ceil_set:gen:k_fold_pattern', 'crossval:no_ceil_set:gen:hand',
+            'crossval:ceil_set:gen:hand', 'crossval:ceil_set:gen:k_fold', 'crossval:ceil_set:gen:k_fold_rdm',
+            'crossval:ceil_set:gen:loo_rdm', 'crossval:ceil_set:gen:loo_pattern',
+            'crossval:hand:idx:list', 'crossval:hand:idx:tuple', 'crossval:hand:idx:array',
+            'crossval:hand:overlap', 'crossval:calc_nc:nonbool', 'session:crossval:no_ceil_set',
+            'session:crossval:no_ceil_set:again-after-edit']
 ASSUMPTIONS = [
     'all randomness of the routines comes from numpy.random (randint, shuffle; rand inside '
     'fit_optimize) — checked by the taps (every draw is recorded and replayed in the model) and by '
@@ -168,7 +187,8 @@ def nontrivial_key(case, impl):
     return [case['routine'], case.get('bt'), case['seed'], case['method'],
             json.dumps(case['vecs'])[:200], json.dumps(case['models'])[:120],
             json.dumps({k: case.get(k) for k in ('N', 'kr', 'kp', 'n_cv', 'nr', 'np', 'boot_nc',
-                                                  'use_correction', 'gen', 'theta', 'fitter',
+                                                  'use_correction', 'gen', 'theta', 'fitter', 'ceil', 'calc_nc',
+                                                  'calc_nc_form',
                                                   'rdm_groups', 'pat_groups')}, sort_keys=True)]
 
 
